@@ -27,8 +27,18 @@ def make_model(datasets, learner="linear", train_fdr=0.05, max_iter=3, seed=0, d
 
 
 def run_brew(paths, learner="linear", folds=3, seed=0, test_fdr=0.05, train_fdr=0.05, max_workers=1,
-             subset_max_train=None, max_iter=3, delay=0.0, override=False, read_workers=1, ensemble=False):
-    """Returns dict(status, call, datasets, models, scores, descs, log)."""
+             subset_max_train=None, max_iter=3, delay=0.0, override=False, read_workers=1, ensemble=False, perturb=None):
+    """Returns dict(status, call, datasets, models, scores, descs, log). With `perturb` (a seed) and several workers the
+    joblib task functions run under vf.instruments.scheduler (seeded delays, completion orders recorded)."""
+    if perturb is not None and max_workers > 1:
+        from vf.instruments import scheduler
+
+        with scheduler.perturb(int(perturb)) as trace:
+            out = run_brew(paths, learner, folds, seed, test_fdr, train_fdr, max_workers, subset_max_train, max_iter, delay,
+                           override, read_workers, ensemble, None)
+        out["sched_out_of_order"] = trace.out_of_order()
+        out["sched_threads"] = trace.threads()
+        return out
     mokapot = core.import_mokapot()
     recorder.reset()
     out = {"status": "ok"}
